@@ -57,7 +57,7 @@ THEOREMS = [
     "C11_copy_pop_refuted_inplace",
     "C11_reads_are_pure", "C11_reads_are_pure_from_dict", "C11_reads_are_pure_copy_pop", "C11_read_pure_step",
     "C11_reads_are_pure_satisfiable", "C11_reads_pure_refuted_subclass_copy",
-    "C11_transport_hash",
+    "C11_transport_hash", "C11_accessors_pure", "C11_accessor_value_function_of_content",
 ]
 RULE = ("for each attrs class of swh.model.model, each SWHID class and ImmutableDict: generated valid field values; "
         "every dict/list-typed argument is a fresh container kept by the harness; script = setattr+delattr on every "
@@ -73,8 +73,19 @@ RULE = ("for each attrs class of swh.model.model, each SWHID class and Immutable
         "to one long-lived worker process running the same repo under another PYTHONHASHSEED (and back: built and hashed "
         "there, unpickled here); afterwards the copy must equal the original and a fresh local twin, hash like them, be the "
         "same set member / dict key, have the same to_dict()/id/content and still refuse setattr/delattr/item assignment.  "
+        "LATER MUTATION reaches the containers NESTED (depth 2-3: list in dict, dict in list in dict) in every container "
+        "argument on both routes - Revision in the legacy encoding (extra_headers inside metadata; constructor and from_dict), "
+        "metadata of Release/Revision/OriginVisitStatus/authorities, Snapshot branches and Directory entries given as nested "
+        "dicts to from_dict, extra_headers as list of lists: the object must not move, except for containers nested in a "
+        "mapping argument frozen by a shallow copy (recorded reading, C11_nested_shared_example) where model and "
+        "implementation must agree that it does; dict arguments are also instances of subclasses overriding copy() (returning "
+        "self / a defaultdict) or items()/keys()/values()/__iter__; a construction that raises for a dict-subclass argument "
+        "while the equal plain dict builds is a violation; channel RETURNED-CONTAINER: for every public accessor found by "
+        "inspection (attrs fields, properties, zero-argument public methods: to_dict, qualifiers, hashes, unique_key, items/keys/"
+        "values materialised, ...) the result is mutated deeply (pop, clear, append, nested edits), then the object, a twin and a "
+        "fresh call are observed again; two successive calls (or two equal objects) must not hand out the same mutable container.  "
         "non-trivial = at least one kept container argument is mutated after construction, or twins "
-        "differing only in insertion order / eq=False fields, or a transport batch; distinct = distinct case")
+        "differing only in insertion order / eq=False fields, or a transport batch, or a returned-container probe; distinct = distinct case")
 TRUSTED = [
     "the transport worker (harness/c11.py worker_main, started by the harness with another PYTHONHASHSEED; length-prefixed "
     "pickle frames); the model treats transport as the identity on values and its hash as a function of the content "
@@ -94,6 +105,8 @@ ASSUMPTIONS = [
     "containers directly under it); containers nested inside it stay shared and are not mutated (DESIGN section 7)",
     "arguments have the declared type of their field: a dict/list given to a field that has neither validator nor "
     "converter (raw_manifest, Content.get_data) is stored as is (C11_no_alias_refuted_unchecked_field)",
+    "returned-container probes run on objects whose mapping arguments hold no nested mutable container (to_dict() hands "
+    "those out as they are: same recorded reading)",
     "hash coherence is for hashable objects (a list/dict inside metadata makes hash() raise TypeError); mapping keys "
     "are str or bytes of one type, so sorted() in ImmutableDict.__hash__ is defined",
     "private-name / low-level channels are out of scope: object.__setattr__, ImmutableDict._data, __dict__ of the "
@@ -139,7 +152,39 @@ class MissingDict(dict):
         return None
 
 
-SUBCLASSES = ("defaultdict_list", "defaultdict_none", "ordered", "missing")
+class CopySelfDict(dict):
+    """copy() hands out the very same object"""
+    def copy(self):
+        return self
+
+
+class CopyDefaultDict(dict):
+    """copy() hands out a defaultdict"""
+    def copy(self):
+        import collections
+        return collections.defaultdict(list, self)
+
+
+class ListViewsDict(dict):
+    """items() / keys() / values() / __iter__ overridden (lists and a list iterator instead of views), same content, same order"""
+    def items(self):
+        return list(dict.items(self))
+
+    def keys(self):
+        return list(dict.keys(self))
+
+    def values(self):
+        return list(dict.values(self))
+
+    def __iter__(self):
+        return iter(list(dict.keys(self)))
+
+
+# subclasses that may stand for ANY dict argument ...
+SUBCLASSES = ("defaultdict_list", "defaultdict_none", "ordered", "missing", "list_views")
+# ... and those whose copy() is overridden: not for the top-level dictionary of from_dict (from_dict calls d.copy() to
+# protect its argument: a copy() returning self makes the CALLER's class defeat that, which is not the library's doing)
+COPY_SUBCLASSES = ("copy_self", "copy_default")
 FACTORY_SUBCLASSES = ("defaultdict_list", "defaultdict_none", "missing")     # a failed d[k] inserts k
 
 
@@ -153,6 +198,12 @@ def new_dict(sub):
         return collections.OrderedDict()
     if sub == "missing":
         return MissingDict()
+    if sub == "copy_self":
+        return CopySelfDict()
+    if sub == "copy_default":
+        return CopyDefaultDict()
+    if sub == "list_views":
+        return ListViewsDict()
     return {}
 
 
@@ -356,10 +407,10 @@ def rmeta_value(rng, depth=0):
         return None
     if r < 0.8:
         return ["t", [["i", rng.randrange(9)] for _ in range(rng.randrange(3))]]
-    if depth < 1 and r < 0.9:       # nested mutable containers: shared, never mutated by the script
-        return ["l", [rmeta_value(rng, 1) for _ in range(rng.randrange(3))]]
-    if depth < 1:
-        return ["d", [[["s", "n%d" % i], rmeta_value(rng, 1)] for i in range(rng.randrange(3))]]
+    if depth < 2 and r < 0.9:       # nested mutable containers (list in dict, dict in list in dict, ...)
+        return ["l", [rmeta_value(rng, depth + 1) for _ in range(rng.randrange(3))]]
+    if depth < 2:
+        return ["d", [[["s", "n%d" % i], rmeta_value(rng, depth + 1)] for i in range(rng.randrange(3))]]
     return ["B", rng.random() < 0.5]
 
 
@@ -375,10 +426,10 @@ def rmeta_items(rng, hashable=False):
     return items
 
 
-def subify(rng, dspec, p=0.45):
+def subify(rng, dspec, p=0.45, copy_ok=True):
     """a dict argument is, with probability p, an instance of a dict subclass"""
     if rng.random() < p:
-        return [dspec[0], dspec[1], rng.choice(SUBCLASSES)]
+        return [dspec[0], dspec[1], rng.choice(SUBCLASSES + (COPY_SUBCLASSES if copy_ok else ()))]
     return dspec
 
 
@@ -462,6 +513,8 @@ def g_revision(rng, hashable=False):
         legacy = [["s", "extra_headers"], ["l" if meta[0] == "d" else "t",
                                            [["l" if meta[0] == "d" else "t", [rb(rng, 2), rb(rng, 2)]]]]]
         items = meta[1] + [legacy]
+        if not hashable and rng.random() < 0.7:
+            items.append([["s", "nested"], ["d", [[["s", "l"], ["l", [["i", 1], ["d", [[["s", "deep"], ["l", []]]]]]]]]]])
         rng.shuffle(items)
         meta = [meta[0], items]
         xh = ["t", []]
@@ -631,6 +684,83 @@ def read_steps(fld, items, cname, k0=0):
     return steps
 
 
+_ACCESSORS = {}
+
+
+def accessors_of(cname):
+    """every public accessor found by inspection: attrs fields, properties, public methods callable without argument
+    (to_dict, qualifiers, hashes, unique_key, swhid, items / keys / values, ...).  [(name, "attr"|"prop"|"call")]"""
+    import inspect
+    if cname in _ACCESSORS:
+        return _ACCESSORS[cname]
+    acc = []
+    try:
+        import attr
+        classes, ImmutableDict = _classes()
+        cls = ImmutableDict if cname == "ImmutableDict" else classes[cname]
+        if attr.has(cls):
+            acc += [(a.name, "attr") for a in attr.fields(cls)]
+        for n in sorted(dir(cls)):
+            if n.startswith("_") or any(n == x for x, _ in acc):
+                continue
+            a = inspect.getattr_static(cls, n)
+            if isinstance(a, property):
+                acc.append((n, "prop"))
+            elif isinstance(a, (classmethod, staticmethod)) or isinstance(a, type):
+                continue
+            elif callable(a):
+                # plain functions, but also wrapped ones (functools.lru_cache / cached decorators, partials ...)
+                try:
+                    ps = list(inspect.signature(a).parameters.values())[1:]
+                    ok = all(q.default is not q.empty or q.kind in (q.VAR_POSITIONAL, q.VAR_KEYWORD) for q in ps)
+                except (TypeError, ValueError):
+                    ok = True           # no signature: try it, the call is made under try/except
+                if ok:
+                    acc.append((n, "call"))
+            elif not isinstance(a, (str, bytes, int, float, bool, type(None), enum.Enum)) and hasattr(a, "__get__"):
+                acc.append((n, "prop"))     # any other descriptor (cached_property, ...)
+    except Exception:
+        acc = [("to_dict", "call")]
+    _ACCESSORS[cname] = acc
+    return acc
+
+
+def accessor_case(rng, cname, route):
+    """channel `returned-container`: take what every public accessor hands out, mutate it deeply, observe again.
+    The objects have no mutable container nested in their mapping arguments (those would be handed out by to_dict()
+    as they are: the shallow reading recorded in DESIGN section 7)."""
+    if cname == "ImmutableDict":
+        items = rmeta_items(rng, hashable=True)
+        c = {"kind": "script", "cls": cname, "route": "ctor", "args": [["data", [rng.choice(["d", "I"]), items]]],
+             "steps": [], "nested_shared": []}
+    else:
+        spec = gen_obj(rng, cname, hashable=True)
+        if route == "fromdict":
+            c = fromdict_case(rng, cname, spec, nested_ok=False)
+            if c is None or c["route"] != "fromdict":
+                return None
+            # to_dict() turns tuples into lists for from_dict: keep the metadata values flat (see docstring)
+            d0 = c["args"][0]
+            d0[1][:] = [[k, ([v[0], [[kk, (["s", "flat"] if vv is not None and vv[0] in ("l", "d") and kk != ["s", "extra_headers"] else vv)] for kk, vv in v[1]]] + v[2:]
+                             if k[1] == "metadata" and v is not None and v[0] == "d" else v)] for k, v in d0[1]]
+            c = dict(c, steps=[], nested_shared=[])
+        else:
+            c = {"kind": "script", "cls": cname, "route": "ctor", "args": spec[2], "steps": [], "nested_shared": []}
+    c["steps"] = [["ret", n, k] for n, k in accessors_of(cname)]
+    return c
+
+
+def legacy_revision(cname, fields):
+    """Revision given in the legacy encoding: extra_headers inside a non-empty metadata, none given explicitly
+    (__attrs_post_init__ then moves them out through copy_pop: a DEEP copy of the metadata)"""
+    if cname != "Revision":
+        return False
+    d = dict((f, v) for f, v in fields)
+    meta, xh = d.get("metadata"), d.get("extra_headers")
+    return bool(meta is not None and meta[0] in ("d", "I") and any(k == ["s", "extra_headers"] for k, _ in meta[1])
+                and (xh is None or not xh[1]))
+
+
 def script_case(rng, cname, objspec, route):
     """script over the top-level arguments of objspec = ["o", cname, fields]"""
     fields = objspec[2]
@@ -648,17 +778,34 @@ def script_case(rng, cname, objspec, route):
     steps += reads
     # kept containers, numbered as build() creates them over the argument list
     kept = []
+    owner = {}
     for f, v in fields:
         before = len(kept)
         kept_specs(v, kept)
-        # only the argument object itself is mutated: path == ()
+        for j in range(before, len(kept)):
+            owner[j] = f
+    # the argument objects themselves, then the containers NESTED in them (depth 2-3).  A container nested in a
+    # mapping argument that is frozen by a SHALLOW copy (freeze_optional_dict / ImmutableDict(d)) stays shared with the
+    # object - the recorded reading of DESIGN section 7, C11_nested_shared_example: those mutations come last, are
+    # compared with the model (which says "changed") and are not required to leave the object alone.  Everything else
+    # (Revision in the legacy encoding: deep copy; extra_headers given as list of lists) must not move.
+    legacy = legacy_revision(cname, fields)
+    shared = [i for i, (sp, path) in enumerate(kept)
+              if path != () and (owner[i] in MAPPING_FIELDS or cname == "ImmutableDict") and not legacy]
     k = 0
+    late = []
     for i, (sp, path) in enumerate(kept):
-        if path == ():
-            steps += container_steps(rng, sp, i, k)
-            k += 7
+        st = container_steps(rng, sp, i, k)
+        if path != ():
+            st = st[:2]
+        if i in shared:
+            late += st[:1]
+        else:
+            steps += st
+        k += 7
     steps += reads[:3]
-    return {"kind": "script", "cls": cname, "route": route, "args": fields, "steps": steps}
+    steps += late
+    return {"kind": "script", "cls": cname, "route": route, "args": fields, "steps": steps, "nested_shared": shared}
 
 
 def to_spec(v, mutable=True):
@@ -690,19 +837,44 @@ def to_spec(v, mutable=True):
     raise ValueError(repr(v))
 
 
-def fromdict_case(rng, cname, objspec):
+def fromdict_case(rng, cname, objspec, nested_ok=True):
     """from_dict(d) with d = to_dict() of a generated object, every container mutable and kept;
-    mutated afterwards: d itself and the containers directly under it"""
-    obj = build(objspec, [])
-    if not hasattr(obj, "to_dict") or not hasattr(type(obj), "from_dict"):
-        return None
-    dspec = to_spec(obj.to_dict())
+    mutated afterwards: d itself, the containers directly under it, and the containers nested deeper (depth 2-3)"""
+    try:
+        obj = build(objspec, [], None, True)          # from plain dicts: only to obtain the dictionary form
+        if not hasattr(obj, "to_dict") or not hasattr(type(obj), "from_dict"):
+            return None
+        dspec = to_spec(obj.to_dict())
+    except Exception:
+        # the library refuses (or crashes on) arguments the generator considers valid: not a generation-time matter -
+        # hand the very arguments to impl()/oracle as a constructor case
+        return {"kind": "script", "cls": cname, "route": "ctor", "args": objspec[2], "steps": [], "nested_shared": []}
+    if cname == "Revision" and rng.random() < 0.4:
+        # the legacy encoding: extra_headers inside metadata, none given explicitly
+        d = dict((k[1], v) for k, v in dspec[1])
+        xh = d.get("extra_headers")
+        if xh is not None and xh[1] and (d.get("metadata") is None or d["metadata"][0] == "d"):
+            meta_items = list(d["metadata"][1]) if d.get("metadata") is not None else []
+            if not any(k == ["s", "extra_headers"] for k, _ in meta_items):
+                meta_items.append([["s", "extra_headers"], xh])
+                if nested_ok and rng.random() < 0.7:
+                    meta_items.append([["s", "nested"], ["l", [["d", [[["s", "deep"], ["l", [["i", 1]]]]]], ["i", 2]]]])
+                rng.shuffle(meta_items)
+                dspec[1][:] = [[k, (["d", meta_items] if k[1] == "metadata" else ["l", []] if k[1] == "extra_headers" else v)]
+                               for k, v in dspec[1]]
+                if "metadata" not in d:
+                    dspec[1].append([["s", "metadata"], ["d", meta_items]])
     if rng.random() < 0.5:
         dspec[1].reverse()
-    dspec = subify(rng, dspec, 0.3)
+    dspec = subify(rng, dspec, 0.3, copy_ok=False)
     dspec[1][:] = [[k, (subify(rng, v, 0.4) if v is not None and v[0] == "d" else v)] for k, v in dspec[1]]
-    kept = []
-    kept_specs(dspec, kept)
+    kept = [(dspec, ())]
+    root = {0: None}
+    for key, v in dspec[1]:
+        before = len(kept)
+        kept_specs(v, kept, False, ("d",))
+        for j in range(before, len(kept)):
+            root[j] = key[1]
     steps, k = [], 0
     reads = []
     for key, v in dspec[1]:
@@ -711,12 +883,23 @@ def fromdict_case(rng, cname, objspec):
             if cname == "Snapshot":
                 reads.append(["read", None, "manifest", None])
     steps += reads
+    legacy = legacy_revision(cname, [[key[1], v] for key, v in dspec[1]])
+    # nested in the metadata dictionary (frozen by a shallow copy): shared, see script_case; nested anywhere else
+    # (author / date / entries / branches / parents / extra_headers ..., and metadata in the legacy encoding): converted
+    shared = [i for i, (sp, path) in enumerate(kept) if len(path) >= 2 and root[i] == "metadata" and not legacy]
+    late = []
     for i, (sp, path) in enumerate(kept):
-        if len(path) <= 1 and path in ((), ("d",)):
-            steps += container_steps(rng, sp, i, k)
-            k += 7
+        st = container_steps(rng, sp, i, k)
+        if len(path) >= 2:
+            st = st[:2]
+        if i in shared:
+            late += st[:1]
+        else:
+            steps += st
+        k += 7
     steps += reads[:3]
-    return {"kind": "script", "cls": cname, "route": "fromdict", "args": [dspec], "steps": steps}
+    steps += late
+    return {"kind": "script", "cls": cname, "route": "fromdict", "args": [dspec], "steps": steps, "nested_shared": shared}
 
 
 def idict_case(rng):
@@ -744,7 +927,13 @@ def idict_case(rng):
         steps += container_steps(rng, arg if arg[0] == "d" else arg, 0, 0)
         if items:
             steps.append(["copy_pop", items[0][0]])
-    return {"kind": "script", "cls": "ImmutableDict", "route": "ctor", "args": [["data", arg]], "steps": steps}
+    kept = []
+    kept_specs(arg, kept)
+    shared = [i for i, (sp, path) in enumerate(kept) if path != ()]      # nested in the argument: shallow copy, shared
+    for i in shared:
+        steps += container_steps(rng, kept[i][0], i, 50 + 7 * i)[:1]
+    return {"kind": "script", "cls": "ImmutableDict", "route": "ctor", "args": [["data", arg]], "steps": steps,
+            "nested_shared": shared}
 
 
 def eq_flags(cname):
@@ -897,7 +1086,8 @@ def twins_cases(rng, cname):
 
 def gen(rng, tier):
     classes, _ = _classes()
-    n_obj = 20 if tier == "quick" else 400
+    n_obj = 20 if tier == "quick" else 350
+    n_acc = 3 if tier == "quick" else 60
     cases = []
     names = sorted(classes)
     missing = [n for n in names if n not in GENS and n not in NOT_INSTANTIABLE]
@@ -914,6 +1104,12 @@ def gen(rng, tier):
                 cases.append(fd)
             cases += twins_cases(rng, cname)
             cases += spelled_cases(rng, cname)
+        for k in range(n_acc):
+            ac = accessor_case(rng, cname, "fromdict" if k % 3 == 2 else "ctor")
+            if ac:
+                cases.append(ac)
+    for _ in range(n_acc * 2):
+        cases.append(accessor_case(rng, "ImmutableDict", "ctor"))
     for _ in range(n_obj * 3):
         cases.append(idict_case(rng))
         cases += spelled_cases(rng, "ImmutableDict")
@@ -949,7 +1145,7 @@ def gen(rng, tier):
 
 # ------------------------------------------------------------------ classification
 def _mutated_containers(c):
-    return sum(1 for s in c.get("steps", []) if s[0] in ("set", "del", "clear", "app", "idx", "pop", "copy_pop", "read"))
+    return sum(1 for s in c.get("steps", []) if s[0] in ("set", "del", "clear", "app", "idx", "pop", "copy_pop", "read", "ret"))
 
 
 def nontrivial(c):
@@ -968,7 +1164,7 @@ def nontrivial(c):
 
 def _subclasses(x):
     if isinstance(x, list):
-        if len(x) == 3 and x[0] == "d" and isinstance(x[2], str) and x[2] in SUBCLASSES:
+        if len(x) == 3 and x[0] == "d" and isinstance(x[2], str) and x[2] in SUBCLASSES + COPY_SUBCLASSES:
             yield x[2]
         for y in x:
             yield from _subclasses(y)
@@ -982,6 +1178,8 @@ def classify(c):
         n = sum(1 for st in c["steps"] if st[0] in CALLER_OPS)
         ks.append("read-probes=%s" % ("0" if not any(st[0] == "read" for st in c["steps"]) else ">0"))
         ks.append("copy_pop-steps=%s" % ("0" if not any(st[0] == "copy_pop" for st in c["steps"]) else ">0"))
+        ks.append("returned-container-probes=%s" % ("0" if not any(st[0] == "ret" for st in c["steps"]) else ">0"))
+        ks.append("nested-container-mutations=%s" % ("0" if not c.get("nested_shared") else ">0 (shared by the shallow copy)"))
         subs = sorted(set(_subclasses(c["args"])))
         for sub in subs:
             ks.append("dict-subclass-arg=" + sub)
@@ -1066,6 +1264,105 @@ def snapshot(obj, twin, same=None, frozen=(), copies=()):
     return snap
 
 
+MUTABLE = (dict, list, set, bytearray)
+
+
+def _mutable_ids(x, out, depth=0):
+    """ids of the mutable containers reachable in a returned value"""
+    _, ImmutableDict = _classes()
+    if depth > 8:
+        return out
+    if isinstance(x, MUTABLE):
+        out[id(x)] = x
+    if isinstance(x, dict) or isinstance(x, ImmutableDict):
+        for v in x.values():
+            _mutable_ids(v, out, depth + 1)
+    elif isinstance(x, (list, tuple, set, frozenset)):
+        for v in x:
+            _mutable_ids(v, out, depth + 1)
+    return out
+
+
+def deep_mutate(x, depth=0):
+    """pop / clear / append / nested edits of everything mutable in a returned value"""
+    _, ImmutableDict = _classes()
+    if depth > 8:
+        return
+    if isinstance(x, dict):
+        for v in list(x.values()):
+            deep_mutate(v, depth + 1)
+        if x:
+            x.pop(next(iter(x)))
+        x["__c11_injected__"] = ["x"]
+        for k in list(x):
+            x[k] = None
+        x.clear()
+        x["__c11_left__"] = 1
+    elif isinstance(x, list):
+        for v in list(x):
+            deep_mutate(v, depth + 1)
+        x.append("__c11_injected__")
+        if len(x) > 1:
+            x[0] = None
+            x.pop()
+        x.clear()
+        x.append("__c11_left__")
+    elif isinstance(x, set):
+        x.clear()
+        x.add("__c11_left__")
+    elif isinstance(x, bytearray):
+        x[:] = b"c11"
+    elif isinstance(x, ImmutableDict):
+        for v in x.values():
+            deep_mutate(v, depth + 1)
+    elif isinstance(x, (tuple, frozenset)):
+        for v in x:
+            deep_mutate(v, depth + 1)
+
+
+def _accessor(o, name, kind):
+    import collections.abc
+    import types
+    v = getattr(o, name)
+    if kind == "call":
+        v = v()
+    _, ImmutableDict = _classes()
+    # views / generators are materialised by the caller
+    if isinstance(v, (types.GeneratorType, collections.abc.KeysView, collections.abc.ValuesView, collections.abc.ItemsView)) \
+            or (isinstance(v, collections.abc.Iterator)):
+        v = list(v)
+    return v
+
+
+def _render_ret(v):
+    if isinstance(v, (set, frozenset)):
+        return "S(" + ";".join(sorted(render(x) for x in v)) + ")"
+    return render(v)
+
+
+def returned_container_probe(obj, twin, name, kind):
+    """facts about what the accessor hands out; {} when the accessor raises (nothing was handed out)"""
+    try:
+        r1 = _accessor(obj, name, kind)
+        r2 = _accessor(obj, name, kind)
+        rt = _accessor(twin, name, kind)
+    except Exception as e:
+        return {"accessor_raises": type(e).__name__}
+    before, before_twin = _render_ret(r1), _render_ret(rt)
+    m1, m2, mt = _mutable_ids(r1, {}), _mutable_ids(r2, {}), _mutable_ids(rt, {})
+    facts = {"hands_out_mutable": bool(m1),
+             "same_mutable_twice": bool(set(m1) & set(m2)),            # two successive calls share a mutable container
+             "same_mutable_as_twin": bool(set(m1) & set(mt))}          # ... or share it with another (equal) object
+    deep_mutate(r1)
+    try:
+        facts["fresh_call_differs"] = _render_ret(_accessor(obj, name, kind)) != before
+        facts["second_result_differs"] = _render_ret(r2) != before
+        facts["twin_call_differs"] = _render_ret(_accessor(twin, name, kind)) != before_twin
+    except Exception as e:
+        facts["fresh_call_raises"] = type(e).__name__
+    return facts
+
+
 def impl_script(c):
     _, ImmutableDict = _classes()
     kept, kept2, frozen = [], [], []
@@ -1075,13 +1372,20 @@ def impl_script(c):
         frozen_before = [fsnap(x, cp) for x, cp in zip(frozen, copies)]
         obj = _make(c["cls"], c["route"], built)
     except Exception as e:
-        return {"error": "raises", "exc": core.exc_class(e)}
+        res = {"error": "raises", "exc": core.exc_class(e), "msg": str(e)[:200]}
+        try:        # the same arguments with every dict-subclass instance replaced by an equal plain dict
+            _make(c["cls"], c["route"], _build_args(c["cls"], c["route"], c["args"], [], None, True))
+            res["plain_twin_builds"] = True
+        except Exception:
+            res["plain_twin_builds"] = False
+        return res
     same = _make(c["cls"], c["route"], built)        # the SAME argument objects, a second time
     twin = _make(c["cls"], c["route"], _build_args(c["cls"], c["route"], c["args"], kept2, None, True))   # from equal PLAIN dicts
     snap0 = snapshot(obj, twin, same, frozen, copies)
     res = {"snap0": snap0, "steps": [],
            "frozen_changed_by_construction": [i for i, (a, b) in enumerate(zip(frozen_before, snap0["frozen_args"])) if a != b]}
     snap = snap0
+    prev = snap0
     for st in c["steps"]:
         op = st[0]
         raised = None
@@ -1130,6 +1434,8 @@ def impl_script(c):
                     git_objects.snapshot_git_object(obj, ignore_unresolved=True)
             except Exception as e:
                 raised = "unexpected " + type(e).__name__
+        elif op == "ret":
+            extra["ret"] = returned_container_probe(obj, twin, st[1], st[2])
         elif op == "copy_pop":
             key = build(st[1], [])
             before = dict(obj.items())
@@ -1167,7 +1473,9 @@ def impl_script(c):
             res["damaged"] = True
             return res
         changed = sorted(k for k in set(snap) | set(snap0) if snap.get(k) != snap0.get(k))
-        res["steps"].append(dict({"op": op, "raised": raised, "changed": changed}, **extra))
+        changed_prev = sorted(k for k in set(snap) | set(prev) if snap.get(k) != prev.get(k))
+        prev = snap
+        res["steps"].append(dict({"op": op, "raised": raised, "changed": changed, "changed_prev": changed_prev}, **extra))
     res["frozen_changed"] = [a != b for a, b in zip(frozen_before, snap["frozen_args"])]
     return res
 
@@ -1545,6 +1853,8 @@ def enc_steps(c, enc):
             out.append("%s:%s" % (op, spec_atom_hex(st[1])))
         elif op == "copy_pop":
             out.append("copypop:%s" % spec_atom_hex(st[1]))
+        elif op == "ret":
+            out.append("read:-:todict")      # an accessor: a pure function of the content returning a fresh value
         elif op == "read":
             fld = "-" if st[1] is None else st[1].encode().hex()
             kind = "todict" if st[2] == "manifest" else st[2]      # the manifest is a function of the content
@@ -1648,6 +1958,9 @@ def oracle(c, ires, mres):
         return None if ires["error"] == "raises" else ires["error"]
     if c["kind"] == "script":
         if "error" in ires:
+            if ires.get("plain_twin_builds") and any(True for _ in _subclasses(c["args"])):
+                return ("building %s (%s) from a dict-subclass argument raises %s (%s) while the same arguments with an "
+                        "equal plain dict build fine" % (c["cls"], c["route"], ires.get("exc"), ires.get("msg", "")[:80]))
             return None           # construction refused: nothing was built
         if not ires["snap0"]["eq_twin"]:
             return "two %s objects built from the same arguments are not equal" % c["cls"]
@@ -1658,22 +1971,42 @@ def oracle(c, ires, mres):
             return ("building a %s (%s) changed an already frozen ImmutableDict that was passed as argument"
                     % (c["cls"], c["route"]))
         for st, r in zip(c["steps"], ires["steps"]):
+            chg = r.get("changed_prev", r["changed"])       # what THIS step changed
             if st[0] in CALLER_OPS:
-                if r["changed"]:
+                if st[1] in c.get("nested_shared", []):
+                    continue        # nested in a shallow-copied mapping argument: the recorded reading (DESIGN section 7)
+                # (a list nested in the caller's own already-frozen mapping is shared with THAT mapping: same reading)
+                chg = [k for k in chg if k != "frozen_args"]
+                if chg:
                     return ("mutating a container passed to %s (%s) after construction changed the object's %s (step %r)"
-                            % (c["cls"], c["route"], ",".join(r["changed"]), st))
+                            % (c["cls"], c["route"], ",".join(chg), st))
+            elif st[0] == "ret":
+                f = r.get("ret", {})
+                what = "%s.%s%s" % (c["cls"], st[1], "()" if st[2] == "call" else "")
+                if f.get("fresh_call_raises"):
+                    return "after mutating what %s returned, calling it again raises %s" % (what, f["fresh_call_raises"])
+                if f.get("same_mutable_twice"):
+                    return "two successive calls of %s hand out the same mutable container" % what
+                if f.get("same_mutable_as_twin"):
+                    return "%s hands out a mutable container shared with another (equal) object" % what
+                if f.get("fresh_call_differs") or f.get("second_result_differs"):
+                    return "mutating the container returned by %s changed what it returns afterwards / returned before" % what
+                if f.get("twin_call_differs"):
+                    return "mutating the container returned by %s changed what an equal object returns" % what
+                if chg:
+                    return "mutating the container returned by %s changed the object's %s" % (what, ",".join(chg))
             elif st[0] == "read":
                 if r["raised"] is not None and not (st[2] == "getitem" and r["raised"] == "KeyError"):
                     return "read-only access %r raised %s" % (st[1:], r["raised"])
-                if r["changed"]:
+                if chg:
                     return ("a read-only access (%s %s on %s.%s) changed the object's %s"
-                            % (st[2], "" if st[3] is None else st[3], c["cls"], st[1] or "", ",".join(r["changed"])))
+                            % (st[2], "" if st[3] is None else st[3], c["cls"], st[1] or "", ",".join(chg)))
             elif st[0] == "copy_pop":
                 if r["raised"] is not None:
                     return "copy_pop(%r) raised %s" % (st[1], r["raised"])
-                if r["changed"]:
+                if chg:
                     return ("copy_pop(%r) changed a frozen mapping that already existed: %s"
-                            % (st[1], ",".join(r["changed"])))
+                            % (st[1], ",".join(chg)))
                 if not r.get("ret_ok"):
                     return "copy_pop(%r) did not return (value or None, the mapping without the key)" % (st[1],)
             else:
@@ -1683,8 +2016,8 @@ def oracle(c, ires, mres):
                     return "%s(%s) on a %s object did not raise" % (st[0], st[1], c["cls"])
                 if st[0] in ("setitem", "delitem") and r["raised"] is None:
                     return "item assignment/deletion on an ImmutableDict did not raise"
-                if r["changed"]:
-                    return "%s(%s) changed the object's %s" % (st[0], st[1], ",".join(r["changed"]))
+                if chg:
+                    return "%s(%s) changed the object's %s" % (st[0], st[1], ",".join(chg))
         return None
     if c["kind"] == "twins":
         if ires["eq12"] != ires["eq21"] or ires["eq12"] == ires["ne12"]:
@@ -1754,8 +2087,11 @@ def compare(c, ires, mres):
         for st, m, r in zip(c["steps"], mres["steps"], ires["steps"]):
             if (m["raised"] is not None) != (r["raised"] is not None):
                 return "step %r: model raises=%s implementation raises=%s" % (st, m["raised"], r["raised"])
-            if m["changed"] != bool(r["changed"]):
-                return "step %r: model changed=%s implementation changed=%s" % (st, m["changed"], r["changed"])
+            # the already-frozen ARGUMENTS are observed separately (watch list, compared after the script): the model's
+            # per-step observation is of the object only
+            r_changed = [k for k in r["changed"] if k != "frozen_args"]
+            if m["changed"] != bool(r_changed):
+                return "step %r: model changed=%s implementation changed=%s" % (st, m["changed"], r_changed)
         return None
     if c["kind"] == "twins":
         if ("error" in ires) != ("error" in mres):
